@@ -173,6 +173,60 @@ pub fn expr_forms() -> Vec<(String, Expr)> {
     for op in [UnOp::Neg, UnOp::Not, UnOp::BitNot] {
         v.push((format!("unary{}", op.text()), Expr::Un(op, bx(id("a")))));
     }
+    // long spines: n operands joined by one operator (left-nested, `**` right-nested)
+    let name = |i: usize| id(&format!("a{i}"));
+    for op in [BinOp::Sub, BinOp::Mul, BinOp::Shl, BinOp::LogOr, BinOp::Neq, BinOp::Pow] {
+        for n in [3usize, 6, 7, 8, 9, 10, 12, 17, 33] {
+            let e = if op == BinOp::Pow {
+                let mut e = name(n - 1);
+                for i in (0..n - 1).rev() {
+                    e = Expr::Bin(op, bx(name(i)), bx(e));
+                }
+                e
+            } else {
+                let mut e = name(0);
+                for i in 1..n {
+                    e = Expr::Bin(op, bx(e), bx(name(i)));
+                }
+                e
+            };
+            v.push((format!("chain{}x{n}", op.text()), e));
+        }
+    }
+    // the whole precedence ladder, tightest operator first (left spine) and last (right spine)
+    let ladder = [BinOp::Mul, BinOp::Add, BinOp::Shl, BinOp::Lt, BinOp::Eq, BinOp::BitAnd, BinOp::BitXor, BinOp::BitOr, BinOp::LogAnd, BinOp::LogOr];
+    let mut down = Expr::Bin(BinOp::Pow, bx(name(0)), bx(name(1)));
+    for (i, op) in ladder.iter().enumerate() {
+        down = Expr::Bin(*op, bx(down), bx(name(i + 2)));
+    }
+    v.push(("ladder-tightest-first".into(), down));
+    let mut up = Expr::Bin(BinOp::Pow, bx(name(10)), bx(name(11)));
+    for (i, op) in ladder.iter().enumerate() {
+        up = Expr::Bin(*op, bx(name(9 - i)), bx(up));
+    }
+    v.push(("ladder-tightest-last".into(), up));
+    // long postfix, prefix and parenthesis chains
+    v.push(("indexed-id-chain-x10".into(), Expr::IndexedId("a".into(), (0..10).map(|i| Index::List(vec![IndexItem::Expr(int(i))])).collect())));
+    let mut ix = Expr::Call("f".into(), vec![id("a")]);
+    for i in 0..10 {
+        ix = Expr::IndexExpr(bx(ix), Index::List(vec![IndexItem::Expr(int(i))]));
+    }
+    v.push(("index-expr-chain-x10".into(), ix));
+    let mut un = id("a");
+    for i in 0..12 {
+        un = Expr::Un([UnOp::Not, UnOp::BitNot, UnOp::Neg][i % 3], bx(un));
+    }
+    v.push(("unary-chain-x12".into(), un));
+    let mut pa = Expr::Bin(BinOp::Add, bx(id("a")), bx(id("b")));
+    for _ in 0..12 {
+        pa = Expr::Paren(bx(pa));
+    }
+    v.push(("paren-chain-x12".into(), pa));
+    let mut ca = id("a");
+    for i in 0..10 {
+        ca = Expr::Cast(if i % 2 == 0 { Ty::Int(Some(bx(int(8)))) } else { Ty::Float(None) }, bx(ca));
+    }
+    v.push(("cast-chain-x10".into(), ca));
     v
 }
 
@@ -244,6 +298,8 @@ pub fn stmt_forms() -> Vec<(String, Stmt)> {
         ("creg".into(), Stmt::OldDecl { qreg: false, name: "c".into(), size: int(2) }),
         ("input".into(), Stmt::IoDecl { input: true, ty: Ty::Angle(Some(bx(int(32)))), name: "th".into() }),
         ("output".into(), Stmt::IoDecl { input: false, ty: Ty::Bit(Some(bx(int(2)))), name: "res".into() }),
+        ("input-array".into(), Stmt::IoArrayDecl { input: true, base: Ty::Int(Some(bx(int(8)))), dims: vec![int(4)], name: "ia".into() }),
+        ("output-array".into(), Stmt::IoArrayDecl { input: false, base: Ty::Complex(Some(Some(bx(int(64))))), dims: vec![int(2), int(2)], name: "oa".into() }),
         ("alias".into(), Stmt::Alias { name: "al".into(), value: id("q") }),
         ("alias-concat".into(), Stmt::Alias { name: "al".into(), value: Expr::Bin(BinOp::Concat, bx(id("q")), bx(Expr::IndexedId("r".into(), vec![Index::List(vec![IndexItem::Range(int(0), None, int(1))])]))) }),
         ("gate-def".into(), Stmt::Gate { name: "g".into(), params: Some(vec!["t".into(), "u".into()]), qubits: vec!["q0".into(), "q1".into()], body: vec![Stmt::GateCall { mods: vec![], name: "rz".into(), args: Some(vec![id("t")]), operands: vec![Operand::Id("q0".into())] }] }),
@@ -349,7 +405,7 @@ fn stmt_allowed(form: &str, s: &Stmt, pos: &str) -> bool {
     if form.ends_with('!') && pos != "file-first" {
         return false;
     }
-    let global_only = matches!(s, Stmt::Gate { .. } | Stmt::Def { .. } | Stmt::Include(_) | Stmt::Version(_) | Stmt::QubitDecl { .. } | Stmt::HwQubitDecl(_) | Stmt::OldDecl { .. } | Stmt::IoDecl { .. } | Stmt::ArrayDecl { .. });
+    let global_only = matches!(s, Stmt::Gate { .. } | Stmt::Def { .. } | Stmt::Include(_) | Stmt::Version(_) | Stmt::QubitDecl { .. } | Stmt::HwQubitDecl(_) | Stmt::OldDecl { .. } | Stmt::IoDecl { .. } | Stmt::IoArrayDecl { .. } | Stmt::ArrayDecl { .. });
     if global_only && !file {
         return false;
     }
@@ -438,13 +494,12 @@ pub fn run_c04(ctx: &RunCtx) {
             let pr = print_program(&mut src, &c.program, *style);
             let mut fails = vec![];
             // one key per (form class, position): all 19 binary operators share a class
-            let ckey = match c.key.find("binary") {
-                Some(i) if c.key.starts_with("expr=binary") => {
-                    let at = c.key.find('@').unwrap_or(c.key.len());
-                    let _ = i;
-                    format!("expr=binary{}", &c.key[at..])
-                }
-                _ => c.key.clone(),
+            // (the long chains and precedence ladders are binary expressions too)
+            let ckey = if c.key.starts_with("expr=binary") || c.key.starts_with("expr=chain") || c.key.starts_with("expr=ladder") {
+                let at = c.key.find('@').unwrap_or(c.key.len());
+                format!("expr=binary{}", &c.key[at..])
+            } else {
+                c.key.clone()
             };
             let key = format!("C04:matrix:{ckey}");
             check_accept(&pr, &mut fails, &|_, _, _, msg| format!("{key}:{msg}"));
@@ -788,6 +843,9 @@ fn stmts_alone(text: &str) -> Result<Option<Vec<String>>, PanicInfo> {
                 .map(|s| {
                     let mut o = String::new();
                     dump_node(s.syntax(), &mut o);
+                    // the node's own text, trivia included, after a separator
+                    o.push('\u{0}');
+                    o.push_str(&s.syntax().text().to_string());
                     o
                 })
                 .collect(),
@@ -866,6 +924,8 @@ pub fn check_compose(parts: &[String], cx: &Ctx16Ref, out: &mut Vec<Failure>) ->
                 .map(|c| {
                     let mut o = String::new();
                     dump_node(&c, &mut o);
+                    o.push('\u{0}');
+                    o.push_str(&c.text().to_string());
                     o
                 })
                 .collect()
@@ -903,6 +963,19 @@ pub fn check_compose(parts: &[String], cx: &Ctx16Ref, out: &mut Vec<Failure>) ->
                 match list {
                     None => out.push(Failure::new(format!("C16:{}:statement-list-not-found", ctxd.name), detail(String::new(), String::new()))),
                     Some(got) => {
+                        let shape = |v: &[String]| -> Vec<String> { v.iter().map(|d| d.split('\u{0}').next().unwrap_or("").to_string()).collect() };
+                        let (got_full, expected_full) = (got, expected);
+                        let (got, expected) = (shape(&got_full), shape(&expected_full));
+                        if got == expected && got_full != expected_full {
+                            // same trees, but a statement node covers other text (trivia pulled into
+                            // or pushed out of the node by its neighbours)
+                            let i = got_full.iter().zip(expected_full.iter()).position(|(a, b)| a != b).unwrap_or(0);
+                            let text_of = |d: &String| d.split('\u{0}').nth(1).unwrap_or("").to_string();
+                            out.push(Failure::new(
+                                format!("C16:{}:statement-text-differs:{}", ctxd.name, stmt_kind_of(&expected[i])),
+                                detail(text_of(&got_full[i]), text_of(&expected_full[i])),
+                            ));
+                        }
                         if got != expected {
                             let i = got.iter().zip(expected.iter()).position(|(a, b)| a != b).unwrap_or(got.len().min(expected.len()));
                             let e = expected.get(i).cloned().unwrap_or("<none>".into());
